@@ -126,3 +126,80 @@ def kdf_term(I, alg_t, key, label, context, length):
             Z(length),
         )
     return KDFG(alg_t, key_t, label_t, R.to_term(ctx, context), Z(length))
+
+
+# ---------------------------------------------------------------------------------------------- DNS (A-NET)
+SRV_ELEM = z3.Function("SRV_ELEM", Ref, z3.IntSort(), Ref)  # i-th record of an answer
+SRV_TARGET = z3.Function("SRV_TARGET", Ref, Ref)
+SRV_PORT = z3.Function("SRV_PORT", Ref, z3.IntSort())
+SRV_WEIGHT = z3.Function("SRV_WEIGHT", Ref, z3.IntSort())
+SRV_PRIO = z3.Function("SRV_PRIO", Ref, z3.IntSort())
+from pyvc.smt import Str  # noqa: E402
+
+NAME_STR = z3.Function("NAME_STR", Ref, Str)  # str(dns.name.Name)
+
+
+def srv_answer(I, term, n):
+    """An SRV answer as a list of arbitrary length n >= 1 of records with arbitrary fields."""
+    from pyvc.values import SList
+
+    def elem(j):
+        return SRef(SRV_ELEM(term, Z(j)), "SRV")
+
+    return SList(n, elem)
+
+
+@REG.extern_attribute("SRV", "target")
+def _srv_target(I, ref):
+    return SRef(SRV_TARGET(ref.term), "Name")
+
+
+@REG.extern_attribute("SRV", "port")
+def _srv_port(I, ref):
+    return SRV_PORT(ref.term)
+
+
+@REG.extern_attribute("SRV", "weight")
+def _srv_weight(I, ref):
+    return SRV_WEIGHT(ref.term)
+
+
+@REG.extern_attribute("SRV", "priority")
+def _srv_prio(I, ref):
+    return SRV_PRIO(ref.term)
+
+
+@REG.extern_attribute("Name", "__str__")
+def _name_str(I, ref):
+    from pyvc.values import SStr
+
+    return SStr(NAME_STR(ref.term))
+
+
+def _resolve(flavour):
+    def f(I, fn, args, kw):
+        """A-NET: resolve(qname, rdtype, search=...) returns a non-empty answer or raises a DNSException."""
+        I.ctx.event("resolve", flavour=flavour, qname=args[0] if args else kw.get("qname"), rdtype=args[1] if len(args) > 1 else kw.get("rdtype"),
+                    search=kw.get("search"), extra=sorted(set(kw) - {"search", "qname", "rdtype"}), nargs=len(args))
+        from pyvc.smt import fresh_bool, fresh_int, fresh_ref
+
+        if I.branch(fresh_bool("dns_fails")):
+            I.raise_("dns.exception.DNSException")
+        t = fresh_ref("answer")
+        n = fresh_int("answer_len")
+        I.ctx.assume(n >= 1)
+        ans = srv_answer(I, t, n)
+        ans.term = t
+        I.ctx.event("answer", term=t, n=n)
+        if flavour == "async":
+            from pyvc.values import Coro
+
+            return Coro(ans)
+        return ans
+
+    return f
+
+
+REG.externs["dns.resolver.resolve"] = _resolve("sync")
+REG.externs["dns.asyncresolver.resolve"] = _resolve("async")
+REG.extern_exceptions["dns.exception.DNSException"] = ["Exception", "BaseException", "object"]
